@@ -172,6 +172,28 @@ pub fn c14(out: &mut dyn Write, tier: &str, rng: &mut Rng, st: &mut Stats) {
                 st.hit("bdd.leaves-in-separate-allocations");
                 fresh(&bdd, &mut HashMap::new())
             } else { bdd };
+            // every eleventh diagram: two DIFFERENT decision nodes with the same 64-bit hash below one test
+            // (`x ? a : !b` or `x ? a : b` with b's id solved for, util::colliding) — what an export that told nodes
+            // apart by their hash would merge
+            let (bdd, names_field) = if i % 11 == 7 && hash_model_ok() {
+                let k = 1 + rng.below(5) as usize;
+                let shape = if (i / 11) % 2 == 0 { 2 } else { 1 };
+                match colliding(&BDD::Choice(Rc::new(BDD::True), k, Rc::new(BDD::False)), shape, 0) {
+                    Some((z, _)) if z > k => {
+                        let env3: rsbdd::bdd::BDDEnv<NamedSymbol> = rsbdd::bdd::BDDEnv::new();
+                        let sym = |n: &str, id: usize| NamedSymbol { name: Rc::new(n.to_string()), id };
+                        let a = env3.var(sym("a", k));
+                        let b = env3.var(sym("b", z));
+                        let b = if shape == 2 { env3.not(b) } else { b };
+                        if a.get_hash() == b.get_hash() && a != b {
+                            st.hit("bdd.two-nodes-one-hash");
+                            let root = env3.mk_choice(a, sym("x", 0), b);
+                            (root, format!("{}:0,{}:{},{}:{}", hex(b"x"), hex(b"a"), k, hex(b"b"), z))
+                        } else { (bdd, names_field) }
+                    }
+                    _ => (bdd, names_field),
+                }
+            } else { (bdd, names_field) };
             let mut pn = PNames { map: HashMap::new() };
             let mut dump = String::new();
             pdump(&mut pn, &bdd, &mut dump);
@@ -206,7 +228,7 @@ pub fn c14(out: &mut dyn Write, tier: &str, rng: &mut Rng, st: &mut Stats) {
             writeln!(out, "C14|bdd|{}|{}|{}|{}|{}|{}", dump, root, names_field, fields.join("|"), addrs_field, raws.join("|")).unwrap();
             // the same exports written by the binary (-d FILE with one filter, -p FILE), into files that already
             // exist and usually hold a longer earlier export: the file must then hold exactly the new graph
-            if !exotic && i % 10 == 0 {
+            if !exotic && i % 10 == 0 && i % 11 != 7 {
                 let scratch = std::env::var("VERIF_SCRATCH").unwrap_or_else(|_| ".".to_string());
                 let dpath = format!("{}/c14_cli.dot", scratch);
                 let tpath = format!("{}/c14_cli_tree.dot", scratch);
